@@ -47,7 +47,7 @@ func allChecks() []Check {
 				{Harness: "VP_C01_tokens", Quick: map[string]int{"K": 2}, Thorough: map[string]int{"K": 2}, MustReach: []string{"C01/tokens/accepted", "C01/tokens/rejected"}, PanicLabel: "C01/tokens/no-panic"},
 			},
 			Bounds: map[string]string{"tiers": "the thorough tier of this check runs the quick-tier parameters (larger bounds were not validated on the unchanged tree within the session and are therefore not registered)", "scaling": "CONCRETE SHAPES (not symbolic): 18 input shapes (operator chains, unclosed and closed nesting, lists of stray tokens that raise one diagnostic each, member / call chains, prefix runs, long strings, several lines) parsed at two lengths, the second four times the first: the number of SSA instructions the engine executes grows at most six-fold (natively: elapsed time at 4096 / 16384 units, used only to confirm a candidate)",
-				"pool":   "CONCRETE POOL: totality and completeness on 87 longer formulas (keywords as member names and operands, nested lists and conditionals, truncated constructs; member names on the line after their dot followed by stray bytes inside lists: a text with a byte that starts no token is a syntax error)",
+				"pool":   "CONCRETE POOL: totality and completeness on 98 longer formulas (keywords as member names and operands, nested lists and conditionals, truncated constructs; member names on the line after their dot followed by stray bytes inside lists: a text with a byte that starts no token is a syntax error)",
 				"bytes":  "ParseSourceCode on every text of exactly L symbolic bytes (valid UTF-8 or not); quick L=3, thorough L=4; every path must end within the step budget (unwinding check)",
 				"lists":  "a( t1..tK ) and [ t1..tK ] over the 10 tokens the list loops distinguish, symbolic line-break flags, full error recovery (quick K=3, thorough K=4); bytes: every text is parsed twice and both calls must agree",
 				"tokens": "the real parser with full error recovery over every sequence of exactly K tokens (symbolic kinds over the whole scanner image, symbolic line-break flags) through a stub scanner; quick K=2, thorough K=3"},
@@ -195,7 +195,7 @@ func allChecks() []Check {
 				{Harness: "VP_C09_shared", Quick: map[string]int{"N": 2, "D": 2}, Thorough: map[string]int{"N": 3, "D": 2}, MustReach: []string{"C09/shared/done"}, PanicLabel: "C09/shared/no-panic"},
 				{Harness: "VP_C09_shared", Quick: map[string]int{"N": 0, "D": 0}, MustReach: []string{"C09/shared/done"}, PanicLabel: "C09/shared/no-panic", SampleEvery: 1},
 			},
-			Bounds:      map[string]string{"shared": "for every program of the C07 generator: the operations a goroutine performs on a shared tree (Resolve with its own runner and data, ResolveReferenceFields, ParseSourceCode and FormatDiagnostic of another text) write no cell reachable from the tree or from the package-level state (sufficient condition for race freedom under the Go memory model); native replays run the same operations in 4 goroutines under the race detector"},
+			Bounds:      map[string]string{"shared": "for every program of the C07 generator and a concrete pool of 13 shared formulas (patterns, rounding, struct fields, and evaluations that END IN AN ERROR: '!.' on a null member chain, a missing function, a failing builtin): the operations a goroutine performs on a shared tree (Resolve with its own runner and data, ResolveReferenceFields, ParseSourceCode and FormatDiagnostic of another text) write no cell reachable from the tree or from the package-level state (sufficient condition for race freedom under the Go memory model); native replays run the same operations in 4 goroutines under the race detector"},
 			Outside:     []string{"interleavings themselves are not explored (the solver decides the frame condition that makes them irrelevant)", "synchronisation inside dependencies and the standard library (sync.Map, decimal's atomic table) is trusted"},
 			Assumptions: commonAssumptions,
 		},
@@ -329,6 +329,7 @@ func allChecks() []Check {
 			Runs: []HarnessRun{
 				{Harness: "VP_C14_tables", Quick: map[string]int{}, MustReach: []string{"C14/tables/done"}},
 				{Harness: "VP_C14_classes", Quick: map[string]int{}, MustReach: []string{"C14/classes/done"}},
+				{Harness: "VP_C14_identparts", Quick: map[string]int{}, MustReach: []string{"C14/identparts/done"}, PanicLabel: "C14/identparts/no-panic", SampleEvery: 23},
 				{Harness: "VP_C14_tokens", Quick: map[string]int{"L": 2, "OPS": 0}, Thorough: map[string]int{"L": 3, "OPS": 0}, MustReach: []string{"C14/tokens/complete", "C14/tokens/cut"}, PanicLabel: "C14/tokens/no-panic"},
 				{Harness: "VP_C14_tokens", Quick: map[string]int{"L": 4, "OPS": 2}, Thorough: map[string]int{"L": 5, "OPS": 2}, MustReach: []string{"C14/tokens/complete"}, PanicLabel: "C14/tokens/no-panic"},
 				{Harness: "VP_C14_tokens", Quick: map[string]int{"L": 4, "OPS": 1}, Thorough: map[string]int{"L": 5, "OPS": 1}, MustReach: []string{"C14/tokens/complete"}, PanicLabel: "C14/tokens/no-panic"},
@@ -337,6 +338,7 @@ func allChecks() []Check {
 			},
 			Bounds: map[string]string{"tokens": "the real scanner's token sequence (kind, start, end, line-break flag) equals an independent longest-match reference tokenizer's (operator table longest-first, keywords as whole words, identifier classes, ES whitespace/line-break separators) on every text of L symbolic bytes (quick L=2, thorough L=3) and on every text of L bytes over the operator-dense alphabet {= ! . & | ? < > + a 1 space newline 0xC2 0xA0 (NBSP)} (quick L=4, thorough L=5); comparison stops where the statement leaves token extents open (malformed numbers, hex, unterminated strings, escapes)",
 				"spacing": "byte level: every text of L bytes over {a 1 . ( ) , + ! ? : space}, a separator from {space, tab, LF, CR LF, U+2028, NBSP, space LF space} inserted before any one token (also before the end): an accepted text stays accepted with the same tree, a rejected text stays rejected; line breaks before . !. ( excepted; L=3 in both tiers",
+				"identparts": "CONCRETE POOL: identifier start (5 forms) + one of 23 code points (combining marks, non-ASCII digits, ZWNJ/ZWJ, connector punctuation, letters, separators, symbols, an astral digit) + tail (4 forms), 3..9 bytes: scanner tokens equal the reference tokenizer's; an identifier-part character continues the identifier",
 				"classes": "every code point 0..0x10FFFF (one symbolic 32-bit rune)", "scanstep": "one Scan() from every start position of every text of L symbolic bytes (inductive step: tiling for all texts of that size follows by induction over calls); L=4 in both tiers (a malformed \\x escape needs four bytes)"},
 			Outside:     []string{"contents of the ES5 identifier tables (no independent oracle)", "texts longer than the bound"},
 			Assumptions: commonAssumptions,
